@@ -321,7 +321,7 @@ pub fn generate(rng: &mut Rng, prop: &str) -> TapeCheck {
         }
         let mut lo = 0i64;
         let mut step = 1i64;
-        while mem.check((lo - step) as isize) {
+        while step < (1 << 24) && mem.check((lo - step) as isize) {
             lo -= step;
             step *= 2;
         }
@@ -333,7 +333,7 @@ pub fn generate(rng: &mut Rng, prop: &str) -> TapeCheck {
         }
         let mut hi = 0i64;
         let mut step = 1i64;
-        while mem.check((hi + step) as isize) {
+        while step < (1 << 24) && mem.check((hi + step) as isize) {
             hi += step;
             step *= 2;
         }
@@ -346,7 +346,9 @@ pub fn generate(rng: &mut Rng, prop: &str) -> TapeCheck {
         Some((lo, hi))
     };
     for _ in 0..n {
-        let e = edges(&mut live);
+        // edges reported by the implementation under test are only used if they are sane,
+        // so that a broken `check` cannot make the generator ask for absurd allocations
+        let e = edges(&mut live).filter(|&(lo, hi)| lo >= -6_000_000 && hi <= 6_000_000 && lo <= 0 && hi >= 0);
         let mut off = |rng: &mut Rng| -> i64 {
             match (rng.below(10), e) {
                 (0..=2, _) => rng.range(-3, 3),
